@@ -1,3 +1,97 @@
 import TTModel.Proto
-/-! C09 driver — stub (not built yet): answers `bad-op` to everything. -/
-def main : IO Unit := TT.Proto.mainLoop fun _ => "bad-op"
+import TTModel.C09_BDSK
+import TTModel.C09_Options
+import TTGen.C09_Options
+/-!
+C09 driver (Float).  Floats cross the pipe as 16-hex-digit bit patterns.
+  logprob <m> <survival 0|1> <hasr 0|1> lam×m mu×m psi×m rho×m [r×m] times×(m+1) <ntips> tips… <nints> ints…
+      -> `<value> ix i,… iy i,… rhotip b,… n c,… N c,…`
+  pab <m> lam×m mu×m psi×m rho×m times×(m+1)   -> `p h,…(m+1) A h,…(m) B h,…(m)`
+  epi <R> <delta> <s> [<r>]                     -> `lam mu psi`
+  opts                                          -> per class `name:ok` and translatorOk
+-/
+open TT.C09 TT.Proto
+
+def arr (xs : List Float) : Nat → Float := fun i => xs.getD i 0.0
+
+def takeFloats (n : Nat) (ws : List String) : Option (List Float × List String) :=
+  if ws.length < n then none else
+  match (ws.take n).mapM parseFloatBits with
+  | some fs => some (fs, ws.drop n)
+  | none => none
+
+def commaF (xs : List Float) : String := ",".intercalate (xs.map floatBits)
+def commaN (xs : List Nat) : String := ",".intercalate (xs.map toString)
+
+def handle (line : String) : String :=
+  match splitWords line with
+  | "logprob" :: m :: sv :: hr :: rest =>
+    match m.toNat?, sv, hr with
+    | some m, sv, hr =>
+      if m = 0 ∨ ¬ (sv = "0" ∨ sv = "1") ∨ ¬ (hr = "0" ∨ hr = "1") then "bad-op" else
+      let r? := do
+        let (lam, ws) ← takeFloats m rest
+        let (mu, ws) ← takeFloats m ws
+        let (psi, ws) ← takeFloats m ws
+        let (rho, ws) ← takeFloats m ws
+        let (rr, ws) ← (if hr = "1" then takeFloats m ws else some ([], ws))
+        let (times, ws) ← takeFloats (m + 1) ws
+        match ws with
+        | nt :: ws =>
+          let nt ← nt.toNat?
+          let (tips, ws) ← takeFloats nt ws
+          match ws with
+          | ni :: ws =>
+            let ni ← ni.toNat?
+            let (ints, ws) ← takeFloats ni ws
+            if ws.isEmpty then some (lam, mu, psi, rho, rr, times, tips, ints) else none
+          | [] => none
+        | [] => none
+      match r? with
+      | none => "bad-op"
+      | some (lam, mu, psi, rho, rr, times, tips, ints) =>
+        let r : Rates Float := ⟨arr lam, arr mu, arr psi, arr rho⟩
+        let t := arr times
+        let rem := if hr = "1" then some (arr rr) else none
+        let v := logProb r rem t m (sv = "1") tips ints
+        let xs := ints.map fun h => t m - h
+        let ys := tips.map fun h => t m - h
+        let ix := xs.map (idxX t m)
+        let iy := ys.map (idxY t m)
+        let rt := ys.map fun y => if isRhoTip r t m y then 1 else 0
+        let n := (List.range (m - 1)).map fun k => nCross t (k + 1) xs ys
+        let nn := (List.range m).map fun i => nAt t i ys
+        s!"{floatBits v} ix {commaN ix} iy {commaN iy} rhotip {commaN rt} n {commaN n} N {commaN nn}"
+    | _, _, _ => "bad-op"
+  | "pab" :: m :: rest =>
+    match m.toNat? with
+    | some m =>
+      if m = 0 then "bad-op" else
+      let r? := do
+        let (lam, ws) ← takeFloats m rest
+        let (mu, ws) ← takeFloats m ws
+        let (psi, ws) ← takeFloats m ws
+        let (rho, ws) ← takeFloats m ws
+        let (times, ws) ← takeFloats (m + 1) ws
+        if ws.isEmpty then some (lam, mu, psi, rho, times) else none
+      match r? with
+      | none => "bad-op"
+      | some (lam, mu, psi, rho, times) =>
+        let r : Rates Float := ⟨arr lam, arr mu, arr psi, arr rho⟩
+        let t := arr times
+        let ps := (List.range (m + 1)).map (pAt r t m)
+        let as := (List.range m).map (Acoef r)
+        let bs := (List.range m).map (BAt r t m)
+        s!"p {commaF ps} A {commaF as} B {commaF bs}"
+    | none => "bad-op"
+  | "epi" :: ws =>
+    match ws.mapM parseFloatBits with
+    | some [R, d, s] => let (a, b, c) := epiToBD R d s none; s!"{floatBits a} {floatBits b} {floatBits c}"
+    | some [R, d, s, r] => let (a, b, c) := epiToBD R d s (some r); s!"{floatBits a} {floatBits b} {floatBits c}"
+    | _ => "bad-op"
+  | ["opts"] =>
+    let cs := TTGen.C09_Options.classes.map fun c => s!"{c.name}:{c.ok}"
+    s!"{" ".intercalate cs} translatorOk:{TTGen.C09_Options.translatorOk}"
+  | _ => "bad-op"
+
+def main : IO Unit := mainLoop handle
